@@ -238,8 +238,54 @@ def validate_searchsorted(ctx):
         ctx.bucket('pair')
 
 
+def reuse_stream(ctx):
+    """ONE opacity object evaluated, its interpolation mode switched through the public setter, evaluated again
+    (anything resolved once per object and not invalidated by set_interpolation_mode shows here); every evaluation
+    is judged by eval_case's comparisons for the mode that is current"""
+    rng = ctx.rng
+    for k in range(ctx.n(40, 800)):
+        c = gen_case(rng, k)
+        c['tab'] = np.maximum(c['tab'], 1e-300)       # positive table: both modes are defined
+        modes = [c['mode'], 'exp' if c['mode'] == 'linear' else 'linear', c['mode']]
+        tg, pg, tab, wn = c['tg'], c['pg'], c['tab'], c['wn']
+        op = make_opacity(tg, pg, tab, wn, modes[0], c['weights'])
+        pts = [(c['T'], c['P'])]
+        for _ in range(2):
+            g = gen_case(rng, int(rng.integers(0, len(REGIONS))))
+            # keep the table, draw a new point relative to this table's grids
+            i = int(rng.integers(0, len(tg) - 1)); j = int(rng.integers(0, len(pg) - 1))
+            pts.append((float(tg[i] + rng.uniform(0.05, 0.95) * (tg[i + 1] - tg[i])),
+                        float(10 ** (np.log10(pg[j]) + rng.uniform(0.05, 0.95) * (np.log10(pg[j + 1]) - np.log10(pg[j]))))))
+        for step, mode in enumerate(modes):
+            if step > 0:
+                op.set_interpolation_mode(mode)
+            for (T, P) in pts:
+                try:
+                    out = np.asarray(op.opacity(T, P), float).ravel()
+                except Exception as e:
+                    ctx.violation('stale-state:raises', 'Opacity.opacity raised %r after set_interpolation_mode' % (e,),
+                                  dict(modes=modes, step=step, T=T, P=P, tg=tg, pg=pg, tab=tab))
+                    break
+                tabs = tables_for_model(tab, None)
+                d = ctx.model().call('c04.opacity', C.N(0 if mode == 'linear' else 1), C.L(tg), C.L(pg),
+                                     C.LLL([t.tolist() for t in tabs]), C.F(T), C.F(P))
+                mod = np.array(d.list())
+                ctx.case(key=('reuse', mode, step, len(tg), len(pg)), bucket='reuse:mode-switch:step%d:%s' % (step, mode))
+                ok = ctx.check_close('Opacity.opacity after set_interpolation_mode vs Interp.computeOpacity (current mode)',
+                                     out, mod, dict(modes=modes, step=step, T=T, P=P, tg=tg, pg=pg, tab=tab), rel=1e-9,
+                                     abs_=1e-13 * float(tab.max()) / 1e4)
+                if not ok:
+                    fresh = np.asarray(make_opacity(tg, pg, tab, wn, mode, c['weights']).opacity(T, P), float).ravel()
+                    if not C.close(out, fresh, rel=1e-12):
+                        ctx.violation('stale-state:mode-switch', 'after set_interpolation_mode(%r) the object does not return '
+                                      'what a fresh object in that mode returns' % mode,
+                                      dict(modes=modes, step=step, T=T, P=P, tg=tg, pg=pg, tab=tab),
+                                      dict(reused=out[:4], fresh=fresh[:4]))
+
+
 def run(ctx):
     validate_searchsorted(ctx)
+    reuse_stream(ctx)
     n = ctx.n(360, 12000)
     for k in range(n):
         eval_case(ctx, gen_case(ctx.rng, k))
